@@ -11,6 +11,8 @@
 (*      the observations -> <<"VIOL", id, [kind, ep, culprit, ...]>>       *)
 (* (4b) binding: ImplOutcome / ImplProblem of Failover = observations      *)
 (*      -> <<"DRIFT", ...>>                                                *)
+(* Beyond C15 (binding only): path routing, repeated call (unsupported-API *)
+(* switch + cache), disabled-check bookkeeping, uptime metric query.       *)
 (* A refused upstream has no listener that could count the attempt, so     *)
 (* "contacted" is known for it only through the upstream the result is     *)
 (* attributed to.                                                          *)
@@ -24,7 +26,7 @@ tvars == <<vars, l, done>>
 Rec == TraceLog[l]
 
 TraceInit ==
-  /\ modes = <<>> /\ ep = "" /\ required = FALSE /\ i = 1 /\ contacted = <<>> /\ disabled = {} /\ res = NoRes
+  /\ modes = <<>> /\ ep = "" /\ required = FALSE /\ inc = "none" /\ exc = "none" /\ i = 1 /\ contacted = <<>> /\ disabled = {} /\ res = NoRes
   /\ l = 1 /\ done = FALSE
 
 Prefix(j) == [k \in 1..j |-> k]
@@ -92,9 +94,35 @@ BindB ==
   IF ~b.panic /\ ObsSev(b) = exp THEN TRUE
   ELSE Drift([phase |-> "B", modes |-> ms, ep |-> e, expected |-> exp, observed |-> b.problems])
 
+\* ---- growth beyond C15: binding only (DRIFT), never a verdict
+RRouted == Routed(Rec.inc, Rec.exc)
+\* path routing: IsEnabledForPath on the real group, and whether the pipeline created the check at all
+BindRoute ==
+  IF Rec.a.enabled = RRouted /\ Rec.b.ran = RRouted /\ (~RRouted => \A k \in 1..N : Rec.b.counts[k] = 0) THEN TRUE
+  ELSE Drift([phase |-> "route", inc |-> Rec.inc, exc |-> Rec.exc, expected |-> RRouted,
+              observed |-> [enabled |-> Rec.a.enabled, ran |-> Rec.b.ran, counts |-> Rec.b.counts]])
+\* a second identical call: unsupported upstreams are skipped, a cached answer is reused, the rest is asked again
+BindSecond ==
+  LET ms == Rec.modes  asks == SecondCallAsks(ms, Rec.ep)  c2 == Rec.a.counts2 IN
+  IF c2[1] < 0 THEN TRUE
+  ELSE IF \A k \in 1..N : IF k \in asks THEN c2[k] >= 1 \/ ms[k] = "refused" ELSE c2[k] = 0 THEN TRUE
+  ELSE Drift([phase |-> "second-call", modes |-> ms, ep |-> Rec.ep, expected |-> asks, observed |-> c2])
+\* checks disabled because of an unsupported API, as they reach Summary.MarkCheckDisabled
+BindDisabled ==
+  LET obs == {<<Rec.b.disabled[k].api, Rec.b.disabled[k].check>> : k \in 1..Len(Rec.b.disabled)}
+      exp == IF RRouted THEN ImplDisabled(ImplOutcome(Rec.modes, Rec.ep), Rec.ep) ELSE {} IN
+  IF obs = exp THEN TRUE
+  ELSE Drift([phase |-> "disabled-checks", modes |-> Rec.modes, ep |-> Rec.ep, expected |-> exp, observed |-> Rec.b.disabled])
+\* the configured uptime metric is asked for by alerts/count once its range query returned series
+BindUptime ==
+  IF Rec.b.uptime = (RRouted /\ ImplAsksUptime(Rec.modes, Rec.ep)) THEN TRUE
+  ELSE Drift([phase |-> "uptime", modes |-> Rec.modes, ep |-> Rec.ep, observed |-> Rec.b.uptime])
+
 TCase ==
   /\ l <= Len(TraceLog) /\ Rec.ev = "Case"
-  /\ JudgeA /\ BindA /\ JudgeB /\ BindB
+  /\ JudgeA /\ BindA
+  /\ IF RRouted \/ Rec.b.ran THEN JudgeB /\ BindB ELSE TRUE      \* a server not routed to the file is asked nothing
+  /\ BindRoute /\ BindSecond /\ BindDisabled /\ BindUptime
   /\ l' = l + 1 /\ UNCHANGED <<vars, done>>
 
 TDone ==
